@@ -73,7 +73,7 @@ def step (s : St) (ws : List String) : St × String :=
     let (t', r) := s.t.pick s.up (applyPerm ps) rk (nat limit)
     ({ s with t := t' }, match r with
       | .seq l => showIds l
-      | .crash => "crash")
+      | .crash => "crash:nil-host-dereference")
   | _ => (s, "bad-op")
 
 end Driver.C11
